@@ -1173,6 +1173,17 @@ def _slice_args(rng, n):
     return pick(), pick(), st
 
 
+def cntv_op(ref, pv):
+    """count(pv) for a Python value: `cntv:<literal>:<mode>:<set>` — mode n: pv is NaN, set = the item values that are NaN;
+    mode v: set = the item values equal to pv (Python ==), both taken from the reference state."""
+    items = ref.pyitems()
+    if isinstance(pv, float) and pv != pv:
+        st, mode = [w for w, x in zip(ref.lst, items) if isinstance(x, float) and x != x], "n"
+    else:
+        st, mode = [w for w, x in zip(ref.lst, items) if x == pv], "v"
+    return f"cntv:{_litstr(pv)}:{mode}:{_vsstr(list(dict.fromkeys(st)))}"
+
+
 def random_op(ref, rng, allow_bad=True):
     """One random operation that stays outside the known-finding regions, chosen by looking at the reference state."""
     dt, n, tr = ref.dt, len(ref.lst), ref.tr
@@ -1217,15 +1228,17 @@ def random_op(ref, rng, allow_bad=True):
     if r < 0.82:
         return "rev"
     if r < 0.86:
-        if True:
-            if ref.lst and rng.random() < 0.7:
-                cand = [x for x in ref.lst if not (dt.rt == "float" and int(x[2:] or "0", 2) == 0)]
-                if cand:
-                    return f"cnt:{_vstr(rng.choice(cand))}"
-            x = rvalue(dt, rng)
-            if dt.rt == "float" and int(x[2:] or "0", 2) == 0:
-                return "list"
-            return f"cnt:{_vstr(x)}"
+        if dt.rt == "float":
+            # floats: the argument is a Python float given literally (the item's value, its negation, a NaN, 0.0, -0.0 …);
+            # which items equal it is computed from the reference state (see cntv_op)
+            items = ref.pyitems()
+            pv = rng.choice(items) if items and rng.random() < 0.6 else rng.choice([0.0, -0.0, 1.0, math.nan, 0.1, 1, math.inf])
+            if rng.random() < 0.2 and pv == pv:
+                pv = -pv
+            return cntv_op(ref, pv)
+        if ref.lst and rng.random() < 0.7:
+            return f"cnt:{_vstr(rng.choice(ref.lst))}"
+        return f"cnt:{_vstr(rvalue(dt, rng))}"
     if r < 0.875:
         # slice assignment from an Array of the same dtype (its trailing bits must not come along) or from itself
         a, b, c = _slice_args(rng, n)
@@ -1625,13 +1638,7 @@ def gen(rng, tier):
         for pv in lits:
             if isinstance(pv, str) and (not pv.isascii() or not pv.isprintable() or any(ch in pv for ch in ":,")):
                 continue                                            # (would not survive the line format)
-            if isinstance(pv, float) and pv != pv:
-                st = [w for w, x in zip(ref.lst, items) if isinstance(x, float) and x != x]
-                mode = "n"
-            else:
-                st = [w for w, x in zip(ref.lst, items) if x == pv]
-                mode = "v"
-            ops.append(f"cntv:{_litstr(pv)}:{mode}:{_vsstr(list(dict.fromkeys(st)))}")
+            ops.append(cntv_op(ref, pv))
         return hist(dt, vals, trail, ops)
 
     def near(fmt, x):
